@@ -13,6 +13,7 @@ application produced (status, reason, headers, body), errors included.
 Query strings, form bodies and JSON are decoded by urllib / json, not ioflo.
 """
 import json
+import random
 import time
 from urllib.parse import parse_qsl
 
@@ -163,7 +164,14 @@ def one_case(ctx, rng, idx, mem, deadline):
     wit = lambda extra: jsonable(dict({"request": req, "app": {k: v for k, v in (spec or {}).items()},
                                        "transport": "memory" if mem else "loopback"}, **extra))
     try:
-        pair = hg.Pair(app, rng=rng, mem=mem)
+        # some in-memory connections accept sends only partly / not at all and deliver in trickles (a response then
+        # leaves the server over several service passes), and some requests ask for the connection to be closed after
+        # the response (drawn from a generator of its own so that the cases stay what they were)
+        r2 = random.Random(repr((ctx.job["index"] if ctx.job else 0, idx, "transport")))
+        choppy = mem and r2.random() < 0.3
+        pair = hg.Pair(app, rng=random.Random(r2.random()) if choppy else rng, mem=mem, choppy=choppy)
+        if choppy:
+            ctx.hit("choppy_connections")
         patron = pair.patron()
         earlier = []
         for k in range(nreq):
@@ -181,6 +189,11 @@ def one_case(ctx, rng, idx, mem, deadline):
             cur["spec"] = spec
             req["port"] = pair.port
             req["host"] = pair.host
+            if r2.random() < 0.25 and not any(a.lower() == "connection" for a, v in req["headers"]):
+                req["headers"] = list(req["headers"]) + [("Connection", "close")]
+                ctx.hit("requests_asking_to_close")
+                if choppy:
+                    ctx.hit("requests_asking_to_close_on_choppy_connections")
             kw = {"method": req["method"], "path": req["path"], "qargs": _od(req["qargs"]), "headers": _od(req["headers"])}
             if req["kind"] == "body":
                 kw["body"] = req["body"]
@@ -236,6 +249,8 @@ def one_case(ctx, rng, idx, mem, deadline):
             conn = patron.connector
             if not got or len(seen) != k + 1 or conn.cutoff or not conn.connected or not conn.cs:
                 break            # the connection did not persist (close-delimited response ...): the sequence ends here
+            if any(a.lower() == "connection" and v.lower() == "close" for a, v in req["headers"]):
+                break            # the request asked for the connection to be closed after its response
     except Exception as ex:
         if isinstance(ex, (OSError, RuntimeError)) and state["stage"] == "build" and pair is None:
             raise                                   # the harness could not open its own sockets
@@ -284,5 +299,6 @@ def run(ctx):
         ctx.floor("shape:" + s, total // 60)
     ctx.floor("later_request_other_payload_kind", total // 12)
     ctx.floor("bodiless_response_in_sequence", total // 40)
+    ctx.floor("requests_asking_to_close_on_choppy_connections", total // 60)
     for m in hg.METHODS:
         ctx.floor("method:" + m, total // 60)
